@@ -46,6 +46,11 @@ CLASSES = [
          P("items", STRLIST, ("itemsChanged", [STRLIST]), 0),
          P("peer", PW, ("peerChanged", []), 0),
          P("model", PM, ("modelChanged", [PM]), 0),
+         # second sources of a type (two different notifying properties of ONE object), and a gadget-valued source
+         P("pickVal", INT, ("pickValChanged", [INT]), 0),
+         P("text2", STR, ("text2Changed", [STR]), 0),
+         P("flag2", BOOL, ("flag2Changed", [BOOL]), 0),
+         P("pickFont", "QFont", ("pickFontChanged", ["QFont"]), 0),
          # layer 1: bound, readable by layer 2
          P("mid1", INT, ("mid1Changed", [INT]), 1),
          P("midText", STR, ("midTextChanged", []), 1),
@@ -391,16 +396,17 @@ def cxx_stubs():
                         for o, sg in signal_overloads(n, p["notify"][0]):
                             ats = [a[0] for a in sg["args"]]
                             if ats == [t]:
-                                L.append("            Q_EMIT %s(v);" % sg["name"])
+                                L.append("            Q_EMIT %s(%s_);" % (sg["name"], p["name"]))
                             elif ats == [STR] and t in (INT, REAL):
                                 L.append("            Q_EMIT %s(QString::number(v));" % sg["name"])
                             elif ats == []:
                                 L.append("            Q_EMIT %s();" % sg["name"])
                     elif p["name"] == "text":
-                        L.append("            Q_EMIT textChanged(v);")
+                        L.append("            Q_EMIT textChanged(text_);")
                         L.append("            Q_EMIT textChanged();")
                     else:
-                        L.append("            Q_EMIT %s(%s);" % (p["notify"][0], "v" if p["notify"][1] else ""))
+                        # like most Qt classes: emit the stored member, not the caller's argument
+                        L.append("            Q_EMIT %s(%s);" % (p["notify"][0], (p["name"] + "_") if p["notify"][1] else ""))
                     L.append("        }")
                 L.append("    }")
         L.append("    // signals")
